@@ -138,6 +138,10 @@ def plane(tier: str, rng: random.Random) -> List[Tuple[str, Any, Any]]:
             out += [("pred", ("PMinKeys", n), d_), ("pred", ("PMaxKeys", n), d_)]
         bs_ = G.B(b"y" * n)
         out += [("pred", ("PExactLength", n), bs_), ("pred", ("PMinLength", n + 1), bs_)]
+    # lengths count code points: combining sequences, precomposed characters, astral characters, joiners
+    for st in ("e\u0301", "\u00e9", "e\u0301e\u0301", "\U0001f600", "a\u200db", "\u1100\u1161", "\uac00", "n\u0303o", "\u00a0 "):
+        for n in (0, 1, 2, 3, 4):
+            out += [("pred", ("PMinLength", n), G.S(st)), ("pred", ("PMaxLength", n), G.S(st)), ("pred", ("PExactLength", n), G.S(st))]
     for s in ["ß", "éA", "ǅ", "İ", "ﬁ", "σς", " é "]:
         for pr in (("Strip",), ("Upper",), ("Lower",)):
             out.append(("proc", pr, G.S(s)))
